@@ -309,6 +309,16 @@ func report(w *World, pc *PropConfig, tier string, seed int, record, partial boo
 			trustedNames = append(trustedNames, c.FuncName)
 		}
 	}
+	for n, c := range w.contracts {
+		if c.Trusted || !c.Used {
+			continue
+		}
+		for _, en := range c.Ensures {
+			if en.Assumed {
+				assum = append(assum, "assumed postcondition of "+n+" (not proved of its body): "+en.Text)
+			}
+		}
+	}
 	sort.Strings(trustedNames)
 	for _, n := range trustedNames {
 		assum = append(assum, "assumed (trusted) contract: "+n)
